@@ -3,6 +3,8 @@ package wpool
 import (
 	"context"
 	"log/slog"
+
+	"github.com/glebziz/fs_db/internal/verifhook"
 )
 
 func (p *Pool) Run(ctx context.Context) {
@@ -42,6 +44,7 @@ func (p *Pool) exec(e Event) {
 	}()
 
 	err := e.Fn(ctx)
+	verifhook.Count("wpool.executed")
 	if err != nil {
 		slog.Error("the run function failed with an error",
 			slog.String("caller", e.Caller),
